@@ -235,4 +235,11 @@ def runLines : Instance → List Bytes → Except String (List (Option View) × 
       | .error e => .error e
       | .ok (rs, s) => .ok (r :: rs, s)
 
+/-- The observable of the property: compile once, create ONE instance, match all lines, and only
+then read every returned slice (`none` = no match). -/
+def matchAll (d : Dissect) (lines : List Bytes) : Except String (List (Option (List Int))) :=
+  match runLines d.createInstance lines with
+  | .error e => .error e
+  | .ok (vs, s) => .ok (vs.map fun o => o.map s.pool.read)
+
 end Rare.C12
